@@ -175,20 +175,32 @@ def product3(la, lb, lc, v0, v1, v2, v3, v4, v5, v6, v7, v8, ex1, ex2, ex3, t1, 
     return _run_both(make, ref, ordered=False)
 
 
-def concat(dims1, la, lb, lc, v0, v1, v2, v3, v4, v5, v6, v7, v8, three):
+def concat(dims1, la, lb, lc, v0, v1, v2, v3, v4, v5, v6, v7, v8, form):
+    """+ / MultiSweep concatenate in operand order, whatever the nesting of the additions"""
     L.reset()
+    form = L.concretize(form, 0, 5)
     items = _items(3, (la, lb, lc, 0), (v0, v1, v2, v3, v4, v5, v6, v7, v8, 0, 0, 0))
     i1 = {k: items[k] for k in ("a", "b")}
     i2 = {"c": items["c"]}
 
     def ref():
-        r = ref_list(i1, dims1) + ref_list(i2, None)
-        return r + ref_list(i1, dims1) if three else r
+        r1, r2 = ref_list(i1, dims1), ref_list(i2, None)
+        return {0: r1 + r2, 1: r1 + r2 + r1, 2: r1 + r2 + r1, 3: r2 + r1 + r1, 4: r1 + r2 + r2 + r1, 5: r2 + r1 + r2}[form]
 
     def make():
         s1 = Sweep(dict(i1), dims=list(dims1) if dims1 is not None else None)
         s2 = Sweep(dict(i2))
-        return (s1 + s2 + s1) if three else MultiSweep(s1, s2)
+        if form == 0:
+            return MultiSweep(s1, s2)
+        if form == 1:
+            return s1 + s2 + s1
+        if form == 2:
+            return s1 + (s2 + s1)  # right-nested
+        if form == 3:
+            return s2 + MultiSweep(s1, s1)
+        if form == 4:
+            return (s1 + s2) + (s2 + s1)
+        return MultiSweep(s2, s1) + s2
 
     return _run_both(make, ref, ordered=True)
 
@@ -384,11 +396,11 @@ def obligations(tier):  # noqa: C901
         obs.append(
             Ob(
                 f"concat_{id1}",
-                [("la", I), ("lb", I), ("lc", I)] + VALS[:9] + [("three", Bo)],
-                ["0 <= la <= 3 and 0 <= lb <= 3 and 0 <= lc <= 3"],
-                f"H.concat({d1!r}, la, lb, lc, {', '.join(n for n, _ in VALS[:9])}, three)",
-                timeout=120,
-                bounds="s1 + s2 (+ s1) and MultiSweep(s1, s2)",
+                [("la", I), ("lb", I), ("lc", I)] + VALS[:9] + [("form", I)],
+                ["0 <= la <= 3 and 0 <= lb <= 3 and 0 <= lc <= 3", "0 <= form <= 5"],
+                f"H.concat({d1!r}, la, lb, lc, {', '.join(n for n, _ in VALS[:9])}, form)",
+                timeout=240,
+                bounds="MultiSweep(s1, s2), s1 + s2 + s1, s1 + (s2 + s1), s2 + MultiSweep(s1, s1), (s1 + s2) + (s2 + s1), MultiSweep(s2, s1) + s2",
             )
         )
     fdims = [("none", None), ("ab_c", [("a", "b"), "c"]), ("a_bc", ["a", ("b", "c")]), ("abc", [("a", "b", "c")])]
